@@ -67,6 +67,9 @@ pub struct DumpOpts {
     /// phnum, phdr, gate, entry
     pub direct_auxv: Option<[u64; 4]>,
     pub stop_timeout_ms: Option<u64>,
+    /// finer-grained stop timeout (microseconds); wins over `stop_timeout_ms` when set
+    #[serde(default)]
+    pub stop_timeout_us: Option<u64>,
     pub failspots: Vec<String>,
     pub name_faults: Vec<i32>,
     /// (worker only) SIGKILL the target when this hook point is reached: e.g. ("Flushed", 3)
@@ -177,6 +180,9 @@ pub fn configure(o: &DumpOpts) -> (MinidumpWriter, FailGuard) {
     }
     if let Some(ms) = o.stop_timeout_ms {
         w.stop_timeout(std::time::Duration::from_millis(ms));
+    }
+    if let Some(us) = o.stop_timeout_us {
+        w.stop_timeout(std::time::Duration::from_micros(us));
     }
     let guard = set_faults(o);
     (w, guard)
